@@ -5,7 +5,7 @@
 # (c) the demonstration fails with it and (d) passes without it. On success the deliverables are copied to
 # /verif/seeded/<name>/ (name defaults to ID).
 set -u
-id="$1"; name="${2:-$1}"; wt=/tmp/wt/$id; sd=$wt/_seeded
+id="$1"; name="${2:-$1}"; wt=${WT:-/tmp/wt}/$id; sd=$wt/_seeded
 export CARGO_NET_OFFLINE=true
 [ -f $sd/patch.diff ] && [ -f $sd/demo.rs ] || { echo "missing deliverables in $sd"; exit 2; }
 cd $wt || exit 2
@@ -20,9 +20,9 @@ echo "$suite" | grep -q "163 passed; 0 failed" || { echo "suite does not pass wi
 doc=$(cargo test --doc --offline 2>&1 | grep "^test result" | tail -1)
 echo "with change, doc tests: $doc"
 mkdir -p examples; cp $sd/demo.rs examples/demo.rs
-cargo run --offline --example demo > /tmp/wt/$id.demo_with.log 2>&1; rc_with=$?
+cargo run --offline --example demo > ${WT:-/tmp/wt}/$id.demo_with.log 2>&1; rc_with=$?
 git apply -R $sd/patch.diff
-cargo run --offline --example demo > /tmp/wt/$id.demo_without.log 2>&1; rc_without=$?
+cargo run --offline --example demo > ${WT:-/tmp/wt}/$id.demo_without.log 2>&1; rc_without=$?
 rm -f examples/demo.rs; rmdir examples 2>/dev/null
 echo "demo with change: exit $rc_with; without: exit $rc_without"
 if [ $rc_with -ne 0 ] && [ $rc_without -eq 0 ]; then
@@ -30,7 +30,7 @@ if [ $rc_with -ne 0 ] && [ $rc_without -eq 0 ]; then
   cp $sd/patch.diff $sd/demo.rs /verif/seeded/$name/
   [ -f $sd/notes.md ] && cp $sd/notes.md /verif/seeded/$name/agent_notes.md
   cat > /verif/seeded/$name/verify.txt <<EOT
-verified $(date -u +%Y-%m-%dT%H:%M:%SZ) in scratch worktree /tmp/wt/$id (clean checkout of /repo HEAD $(git -C /repo rev-parse --short HEAD)):
+verified $(date -u +%Y-%m-%dT%H:%M:%SZ) in scratch worktree ${WT:-/tmp/wt}/$id (clean checkout of /repo HEAD $(git -C /repo rev-parse --short HEAD)):
   git apply patch.diff                      -> ok (src/ only, no hooks, no tests)
   cargo test --lib --offline                -> $suite
   cargo test --doc --offline                -> $doc
@@ -39,5 +39,5 @@ verified $(date -u +%Y-%m-%dT%H:%M:%SZ) in scratch worktree /tmp/wt/$id (clean c
 EOT
   echo "ACCEPTED -> /verif/seeded/$name"
 else
-  echo "REJECTED: demonstration does not discriminate"; tail -5 /tmp/wt/$id.demo_with.log; exit 1
+  echo "REJECTED: demonstration does not discriminate"; tail -5 ${WT:-/tmp/wt}/$id.demo_with.log; exit 1
 fi
